@@ -59,7 +59,7 @@ TEXT = {
                 "C13_run_inv_from_new): the allow rule stays last and only there, no user rule gets the reserved prefix, every threshold is "
                 ">= 1 and <= the number of DISTINCT principals the rule lists, every rule's principals are distinct and defined (the structural "
                 "part separately: C13_struct_preserved, C13_run_struct); refused edits leave rules/principals unchanged "
-                "(C13_refused_unchanged; C13_refused_trace_exact: the whole object is identical except possibly the principal map AddPrincipal allocates before its type check, C13_refused_trace_witness shows that exception is real), no mutator panics on well-formed metadata (C13_no_panic); the old F10 witness "
+                "(C13_refused_unchanged; C13_refused_trace_exact: the whole object is identical except possibly the principal map AddPrincipal allocates before its type check, C13_refused_trace_witness shows that exception is real); for root metadata C13_root_run_eq_accepted: after any sequence of edits the object equals the one reached by the accepted edits alone, no mutator panics on well-formed metadata (C13_no_panic); the old F10 witness "
                 "AddRule(r,[k,k],2) / UpdateRule(r,[k,k,k],3) with one defined principal is now refused with ErrCannotMeetThreshold and "
                 "leaves the metadata unchanged (C13_F10_repaired, C13_F10_repaired_update, kernel-evaluated, both schema versions); root "
                 "roles keep 1 <= threshold <= #principals with all principals defined, global thresholds >= 1 and unique global rule names "
